@@ -660,7 +660,14 @@ def c12_streams(rng, tier, budget):
 
 def c12_extra(scratch, rng, tier, budget):
     import extras
-    return extras.run_dyn_probe(scratch, "C12")
+    r1 = extras.run_dyn_probe(scratch, "C12")
+    r2 = extras.run_dynbuild_probe(scratch, "C12")
+    r1["failures"] = r1.get("failures", []) + r2.get("failures", [])
+    for k, v in r2.get("stats", {}).items():
+        r1.setdefault("stats", {})[k] = r1.get("stats", {}).get(k, 0) + v
+    r1["samples"] = r1.get("samples", []) + r2.get("samples", [])
+    r1["notes"] = r1.get("notes", []) + r2.get("notes", [])
+    return r1
 
 
 register(Prop("C12", c12_streams, compare=obs_filter(C12_OBS), oracle=c12_oracle, extra=c12_extra,
